@@ -169,11 +169,11 @@ SUBSET_RECIPES = [("arrNew",), ("arrNew", "arrNewPat"), ("arrNew", "arrFillPtr")
 # not in F_CFI variants: std::vector results (shroud cannot generate them), char** (other Fortran
 # interface), strFinal (its user-written 'final' clause is a c_buf statement, there is no such hook
 # for the CFI wrapper)
-CFI_UNSUPPORTED = ("vecRet", "vecRetD", "deep", "extraVecD", "charArrLen", "strFinal")
+CFI_UNSUPPORTED = ("arrSquares", "vecRet", "vecRetD", "deep", "extraVecD", "charArrLen", "strFinal")
 NEEDS_CLASS = {"recSum": "Rec", "ptSum": "Pt", "ptOut": "Pt", "ptScale": "Pt", "arrTotal": "Arr", "makeItem": "Item", "borrowItem": "Item", "defaultItem": "Item", "copyItem": "Item", "useItem": "Item",
                "sumItems": "Item", "passItem": "Item", "refItem": "Item", "makeBox": "Box"}
 # declarations that (as documented) hand nothing to the caller that needs releasing
-NEUTRAL = ["arrSumD", "charArrTwo", "arrInOut", "strRef", "strLib", "strIn", "charOut", "charRet", "charInout", "arrLib", "arrSum", "arrFillOut",
+NEUTRAL = ["strCountChar", "arrSquares", "arrSumD", "charArrTwo", "arrInOut", "strRef", "strLib", "strIn", "charOut", "charRet", "charInout", "arrLib", "arrSum", "arrFillOut",
            "charGrow", "charArrLen", "arrWeights", "charRetLen", "charRetNull", "strPtrIn", "vecSum", "vecDot"]
 
 
